@@ -175,6 +175,14 @@ def _parser(run, emit_cfg, mc_cfgs, label):
                     "direction); non-trivial = path of length >= 1")
 def c13(run):
     q = run.tier == "quick"
+    os.environ["KH_BIG_BASE"] = "1"        # C13 also probes a base that does not fit u32 (known finding F11)
+    try:
+        _c13(run, q)
+    finally:
+        os.environ.pop("KH_BIG_BASE", None)
+
+
+def _c13(run, q):
     _parser(run, "Parser.quick.cfg" if q else "Parser.thorough.cfg",
             ["Parser.mc4.cfg"] if q else ["Parser.mc4minus.cfg"], "Parser state graph")
 
